@@ -204,6 +204,8 @@ access(all) contract Inf {
     access(all) struct A: I1, I2, I3, I4 { access(all) fun one(): Int { return 1 }; init() {} }
     access(all) struct B: I4, I3, I1, I2 { access(all) fun one(): Int { return 2 }; init() {} }
     access(all) struct C: I2, I1, I4 { access(all) fun one(): Int { return 3 }; init() {} }
+    access(all) struct Person: I1 { access(all) let age: Int; init(_ a: Int) { self.age = a }; access(all) fun one(): Int { return self.age } }
+    access(all) struct Robot: I1 { access(all) let serial: String; init(_ s: String) { self.serial = s }; access(all) fun one(): Int { return self.serial.length } }
     access(all) resource interface R1 {}
     access(all) resource interface R2 {}
     access(all) resource interface R3 {}
@@ -801,6 +803,30 @@ var scenarios = []scenario{
         destroy pr`, a, a)), Expect: []string{fmt.Sprint(a), "-5", fmt.Sprint(a - 5), "-6"}},
 			{Kind: "script", Src: scnScript("import CImpl from 0x9\n", "Int", "    return CImpl.record(-1)"), Fails: "ConditionError"},
 			{Kind: "script", Src: scnScript("import CImpl from 0x9\n", "Int", "    var p = CImpl.Plain()\n    return p.record(-1)"), Expect: []string{}},
+		}
+	}},
+	{"bound-method-after-replacement", func(r *Rng) []scnStep {
+		age := r.Intn(90)
+		imp := impW + "import Inf from 0x9\n"
+		return []scnStep{
+			// a method bound through a storage reference of interface type, called after the stored value was replaced by a value of
+			// another conforming type: the reference no longer refers to a value of the type it was bound for
+			{Kind: "tx", Src: scnTx(imp, fmt.Sprintf(`        s.storage.load<AnyStruct>(from: /storage/scnWho)
+        s.storage.save(Inf.Person(%d), to: /storage/scnWho)
+        let ref = s.storage.borrow<&{Inf.I1}>(from: /storage/scnWho)!
+        let f = ref.one
+        log(f())
+        s.storage.load<Inf.Person>(from: /storage/scnWho)
+        s.storage.save(Inf.Robot("rx-7"), to: /storage/scnWho)
+        log(f())`, age)), Fails: "DereferenceError"},
+			{Kind: "tx", Src: scnTx(imp, fmt.Sprintf(`        s.storage.load<AnyStruct>(from: /storage/scnWho)
+        s.storage.save(Inf.Person(%d), to: /storage/scnWho)
+        let ref = s.storage.borrow<&{Inf.I1}>(from: /storage/scnWho)!
+        let f = ref.one
+        s.storage.load<Inf.Person>(from: /storage/scnWho)
+        s.storage.save(Inf.Person(%d + 1), to: /storage/scnWho)
+        log(f())
+        log(ref.one())`, age, age)), Expect: []string{fmt.Sprint(age + 1), fmt.Sprint(age + 1)}},
 		}
 	}},
 	{"resource-juggling", func(r *Rng) []scnStep {
